@@ -92,6 +92,18 @@ def run(project: Project, rep, tier: str):
                         construct=f"{f2.qualname}: {_ast.unparse(h['node'])[:100]}")
     rep.discharged("HT-DTYPE", fi_hs, fi_hs.node, f"{n_fn} function(s) of {mod} inspected: no floating-point store into an array "
                                                   f"whose dtype is inherited from the caller's data")
+    from . import narrow_rule
+    for entry_ in (HEAT, KER):
+        hits, st_ = narrow_rule.analyse(project, mod, entry_)
+        for h in hits:
+            rep.refuted("HT-DTYPE", h["fi"], h["node"],
+                        h["why"] + ": coordinates are rounded to a relative 6e-8 before the Gaussian terms are formed, so the value "
+                                   "is no longer that of the kernel on the diagrams given (nearby points merge, far-away diagrams lose "
+                                   "digits)", construct=f"{h['fi'].qualname}: {_ast.unparse(h['node'])[:100]}")
+        if not hits:
+            rep.discharged("HT-DTYPE", fi_hs, fi_hs.node, f"{entry_.rsplit('.', 1)[1]}: {st_.get('casts', 0)} cast(s) in "
+                                                          f"{st_.get('functions', 0)} function(s), none narrows the diagrams' "
+                                                          f"coordinates to single precision", nontrivial=False)
     # ---- kernel
     fi_k, I_k, r_k = _run(project, KER, ("F", "G"))
     rep.analysed(fi_k)
